@@ -67,6 +67,109 @@ fn write_elfs() {
     }
 }
 
+/// Deterministic perf-map families: boundaries, a function inside / across a regular mapping, overlapping and
+/// zero-length lines, malformed lines, the baseline-interpreter name hand-over, fork / exec.
+fn jit_fixed_cases() -> Vec<Case> {
+    const A: u64 = 0x5000_0000;
+    let t0 = 7_000_000u64;
+    let f = |addr: u64, len: u64, name: &str| PerfMapLine::Fn { addr, len, name: name.to_string() };
+    let sample = |pid: u32, tid: u32, t: u64, ip: u64, rets: &[u64]| {
+        let mut chain = vec![CTX_USER, ip];
+        chain.extend_from_slice(rets);
+        Rec::Sample { pid, tid, t, kernel: false, period: 1_000_000, ip, chain }
+    };
+    let mk = |name: &str, maps: Vec<(u32, PerfMapLine)>, recs: Vec<Rec>| Case {
+        name: name.to_string(),
+        ops: History { ref_time: t0, recs, perf_maps: maps, ..Default::default() }.to_ops(),
+    };
+    let comm = |pid: u32, t: u64| Rec::Comm { pid, tid: pid, name: "jit".to_string(), exec: false, t };
+    let mut v = Vec::new();
+    // 1. exact boundaries of two adjacent functions; a return address equal to the end of a function is
+    //    looked up at end - 1, inside
+    let two = vec![(100u32, f(A, 0x10, "py::f")), (100, f(A + 0x10, 0x20, "Builtin:x"))];
+    let mut recs = vec![comm(100, t0 - 10)];
+    for (k, ip) in [A - 1, A, A + 0xf, A + 0x10, A + 0x2f, A + 0x30].iter().enumerate() {
+        recs.push(sample(100, 100, t0 + 1000 * k as u64, *ip, &[A, A + 1, A + 0x10, A + 0x11, A + 0x30, A + 0x31]));
+    }
+    v.push(mk("jit-boundaries", two.clone(), recs));
+    // 2. a function inside a regular mapping and one straddling its end: the regular mapping wins where both
+    //    cover, but only from its timestamp on
+    let inside = vec![(100u32, f(0x40_1000, 0x100, "py::inside")), (100, f(0x40_1f80, 0x100, "py::straddle")), (100, f(A, 0x10, "py::far"))];
+    let addrs = [0x40_1000u64, 0x40_10ff, 0x40_1100, 0x40_1f80, 0x40_1fff, 0x40_2000, 0x40_207f, 0x40_2080, A];
+    let mut recs = vec![comm(100, t0 - 10)];
+    recs.push(sample(100, 100, t0, 0x40_1010, &addrs));
+    recs.push(Rec::Mmap2 { pid: 100, tid: 100, addr: 0x40_0000, len: 0x2000, pgoff: 0, exec: true, path: "/nonexistent-verif/bin/app".to_string(), t: t0 + 500 });
+    recs.push(sample(100, 100, t0 + 500, 0x40_1010, &addrs));
+    recs.push(sample(100, 100, t0 + 1000, 0x40_2010, &addrs));
+    v.push(mk("jit-inside-regular", inside, recs));
+    // 3. overlapping lines displace earlier ones entirely; a zero-length line at the start of a function
+    //    replaces it; a zero-length line strictly inside displaces it; one at its end does not
+    let over = vec![
+        (100u32, f(A, 0x40, "py::f1")),
+        (100, f(A + 0x20, 0x40, "py::f2")),
+        (100, f(A + 0x100, 0x40, "py::g1")),
+        (100, f(A + 0x100, 0, "py::zero-at-start")),
+        (100, f(A + 0x200, 0x40, "py::h1")),
+        (100, f(A + 0x220, 0, "py::zero-inside")),
+        (100, f(A + 0x300, 0x40, "py::k1")),
+        (100, f(A + 0x340, 0, "py::zero-at-end")),
+        (100, f(A + 0x400, 0x40, "py::m1")),
+        (100, f(A + 0x400, 0x20, "py::m2-same-start-shorter")),
+    ];
+    let addrs = [A + 0x10, A + 0x20, A + 0x5f, A + 0x60, A + 0x100, A + 0x110, A + 0x210, A + 0x220, A + 0x230, A + 0x310, A + 0x33f, A + 0x340, A + 0x410, A + 0x420, A + 0x430];
+    v.push(mk("jit-overlap", over, vec![comm(100, t0 - 10), sample(100, 100, t0, A + 0x21, &addrs)]));
+    // 4. malformed lines are skipped: they take no room in the fake library
+    let mut odd: Vec<(u32, PerfMapLine)> = vec![(100, f(A, 0x10, "py::first"))];
+    for l in PERF_MAP_ODD_LINES.iter() {
+        odd.push((100, PerfMapLine::Raw(l.to_string())));
+    }
+    odd.push((100, f(A + 0x10, 0x10, "py::last")));
+    let addrs = [A + 1, A + 0x11, 0x5000_f000, 0x5000_f010, 0x5000_f041, 0x5000_f081, 0x5000_f0c1, 0x5000_f101, 0x5000_f120];
+    v.push(mk("jit-malformed", odd, vec![comm(100, t0 - 10), sample(100, 100, t0, A + 2, &addrs)]));
+    // 5. the name hand-over to a bare BaselineInterpreter frame (stack_converter.rs:204-233); the chain is
+    //    callee-first, so the root-most frame comes last
+    let names = ["Interpreter: x (a.js:1:1)", "plain1", "BaselineInterpreter", "BaselineInterpreter: s (a.js:2:2)", "BlinterpOp: Op", "Ion: forEach[Call (StrictMode)]", "Builtin:b", "py::y"];
+    let table: Vec<(u32, PerfMapLine)> = names.iter().enumerate().map(|(k, n)| (100u32, f(A + 0x10 * k as u64, 0x10, n))).collect();
+    let fr = |k: u64| A + 0x10 * k + 5;
+    let seqs: [&[u64]; 8] = [
+        &[0, 1, 1, 2, 2],       // regular x, plain, plain, BI (takes x), BI (nothing left)
+        &[0, 3, 2],             // regular, stub (discards x), BI: no label
+        &[0, 4, 0, 1, 4],       // BlinterpOp is a BaselineInterpreter frame too
+        &[5, 2],                // self-hosted name handed over: no label
+        &[7, 6, 2, 7, 2, 2],    // py::y, Builtin (no JS info: keeps the name), BI, py::y, BI, BI
+        &[2, 0, 2],             // BI first: nothing to take
+        &[3, 3, 2, 0, 3, 2],
+        &[1, 6, 1],
+    ];
+    let mut recs = vec![comm(100, t0 - 10)];
+    for (k, seq) in seqs.iter().enumerate() {
+        // root first in `seq`; chain wants callee first; the callee-most entry is the ip
+        let mut rev: Vec<u64> = seq.iter().rev().map(|i| fr(*i)).collect();
+        let ip = rev.remove(0);
+        recs.push(sample(100, 100, t0 + 1000 * k as u64, ip, &rev));
+    }
+    v.push(mk("jit-baseline-handover", table, recs));
+    // 6. fork: the child has its own pid, hence its own perf map (here: none, and another one); exec: the new
+    //    incarnation of the pid reads the same file again; a process without samples never loads its file
+    let mut maps = two.clone();
+    maps.push((301, f(A, 0x10, "Ion: child (c.js:1:1)")));
+    maps.push((250, f(A, u64::MAX, "py::never-loaded-would-overflow")));
+    let recs = vec![
+        comm(100, t0 - 10),
+        comm(250, t0 - 10),
+        sample(100, 100, t0, A + 1, &[A + 0x12]),
+        Rec::Fork { pid: 300, tid: 300, ppid: 100, ptid: 100, t: t0 + 100 },
+        Rec::Fork { pid: 301, tid: 301, ppid: 100, ptid: 100, t: t0 + 100 },
+        sample(300, 300, t0 + 200, A + 1, &[A + 0x12]),
+        sample(301, 301, t0 + 300, A + 1, &[A + 0x12]),
+        Rec::Comm { pid: 100, tid: 100, name: "execed".to_string(), exec: true, t: t0 + 400 },
+        sample(100, 100, t0 + 500, A + 2, &[A + 0x13]),
+        Rec::Exit { pid: 100, tid: 100, t: t0 + 600 },
+    ];
+    v.push(mk("jit-fork-exec", maps, recs));
+    v
+}
+
 impl Prop for C02 {
     fn id(&self) -> &'static str {
         "C02"
@@ -77,6 +180,9 @@ impl Prop for C02 {
             Tier::Thorough => 20000,
         }
     }
+    fn fixed_cases(&self, _tier: Tier) -> Vec<Case> {
+        jit_fixed_cases()
+    }
     fn generate(&self, rng: &mut Rng, tier: Tier, _index: u64) -> Vec<String> {
         let shape = Shape {
             max_len: if tier == Tier::Thorough { 300 } else { 140 },
@@ -86,6 +192,8 @@ impl Prop for C02 {
             allow_fold: true,
             // a third of the cases also map ELF files that exist on disk (segment-based attribution)
             files: if rng.chance(1, 3) { elf_decls() } else { Vec::new() },
+            // three fifths of the cases have perf map files for some of the pids
+            jit: true,
         };
         gen_history(rng, &shape).to_ops()
     }
@@ -97,6 +205,12 @@ impl Prop for C02 {
             return vec!["bad-op".to_string()];
         };
         count_history(&h, stats);
+        if !h.perf_maps.is_empty() {
+            stats.bump("cases_with_perf_map");
+            stats.add("perf_map_lines", h.perf_maps.len() as u64);
+            stats.add("perf_map_lines_raw", h.perf_maps.iter().filter(|l| matches!(l.1, PerfMapLine::Raw(_))).count() as u64);
+            stats.add("perf_map_lines_zero_len", h.perf_maps.iter().filter(|l| matches!(l.1, PerfMapLine::Fn { len: 0, .. })).count() as u64);
+        }
         if !h.files.is_empty() {
             stats.bump("cases_with_files_on_disk");
             let n = h.recs.iter().filter(|r| matches!(r, Rec::Mmap2 { path, .. } if h.files.iter().any(|f| &f.path == path))).count();
@@ -109,6 +223,8 @@ impl Prop for C02 {
             if l.starts_with("s ") {
                 stats.add("frames_lib", l.matches(" l:").count() as u64);
                 stats.add("frames_raw", l.matches(" r:").count() as u64);
+                stats.add("frames_jit", l.matches(" l:2f746d702f706572662d").count() as u64);
+                stats.add("frames_js_label", l.matches(" j:").count() as u64);
             }
         }
         out
